@@ -22,13 +22,17 @@ pub enum Site {
         ids: Vec<usize>,
         force: bool,
     },
-    /// The sender is about to push onto the ring. `free` slots are available, `pending`
+    /// The sender is about to push onto the ring `ring`. `free` slots are available, `pending`
     /// commands are parked in the overflow list (including the one being replayed).
-    BeforePush { free: usize, pending: usize },
+    BeforePush {
+        free: usize,
+        pending: usize,
+        ring: usize,
+    },
     /// Outcome of `Sender::send` for the command passed to it.
     PushOutcome { ok: bool },
-    /// The collector is about to drain the next receiver.
-    BeforeDrain,
+    /// The collector is about to drain the receiver of ring `ring`.
+    BeforeDrain { ring: usize },
     /// A receiver popped an empty ring and has not yet checked for abandonment.
     RecvEmpty,
     /// The collector received this command from the receiver being drained.
